@@ -82,7 +82,19 @@ QUIRK_ALPHABET = {
     "own-config-again-twice": [("F", 16, OWNC), ("F", 16, OWNC)],
     "own-config-again-once": [("F", 16, OWNC)],
 }
-ALL_KINDS = dict(ALPHABET, **QUIRK_ALPHABET)
+# queries whose answer is interpreted through an enumeration: an answer byte OUTSIDE the enumeration is still a backward
+# frame that followed the query (the watcher reports, it does not judge) - and must not stop the watcher
+QES24 = 0x07018B         # QueryEventScheme(device 3, instance 1)
+EDT8 = 0xC108
+QAC8 = 0x05FC            # colour.QueryAssignedColour(short 2) under dt 8
+ENUM_ALPHABET = {
+    "enum24+invalid": [("F", 24, QES24), ("B", 7)],
+    "enum24+valid": [("F", 24, QES24), ("B", 2)],
+    "enum24+255": [("F", 24, QES24), ("B", 255)],
+    "edt+enum16+invalid": [("F", 16, EDT8), ("F", 16, QAC8), ("B", 200)],
+    "edt+enum16+valid": [("F", 16, EDT8), ("F", 16, QAC8), ("B", 3)],
+}
+ALL_KINDS = dict(ALPHABET, **QUIRK_ALPHABET, **ENUM_ALPHABET)
 
 
 def row_flags(desc):
@@ -453,7 +465,7 @@ def make_serial_world(driver, kinds, nsubs, with_map, own=None):
     def make():
         from dalimc.aio.serialworld import SerialWorld, luba_rx_event, sci_frame
         from dali.device.helpers import DeviceInstanceTypeMapper
-        items = [it for kd in kinds for it in ALPHABET[kd] if it[0] in ("F", "B")]
+        items = [it for kd in kinds for it in ALL_KINDS[kd] if it[0] in ("F", "B")]
         frames = []
         for it in items:
             if it[0] == "F":
@@ -727,6 +739,13 @@ def shards(tier):
     L2l = [(a, b) for a in late_kinds for b in ("plain", "query+answer", "edt+ext", "config-twice")]
     for i in range(0, len(L2l), 11):
         out.append(("tridlate", L2l[i:i + 11], 1 if tier == "quick" else 2))
+    # enumerated answers, valid and invalid, followed by further traffic (the watcher must survive and keep reporting)
+    eh = [(a,) for a in ENUM_ALPHABET] + [(a, b) for a in ENUM_ALPHABET for b in ("plain", "query+answer", "config-twice")] + \
+         [(b, a) for a in ENUM_ALPHABET for b in ("plain", "edt+plain")]
+    out.append(("trid", eh[:15], 2, 0, None))
+    out.append(("trid", eh[15:], 1 if tier == "quick" else 2, 1, None))
+    for drv in ("luba", "sci"):
+        out.append(("serial", drv, eh, 0, 1, False))
     # foreign frames that repeat the driver's own last transmission (reported by the gateway with the old sequence number)
     for own, q in (("query", ["own-query-again+answer", "own-query-again+silence"]), ("twice", ["own-config-again-twice", "own-config-again-once"])):
         hs = [(a,) for a in q] + [(a, b) for a in q for b in q + ["plain", "query+answer"]] + [(b, a) for a in q for b in ("plain", "config-once")]
